@@ -815,16 +815,18 @@ fn read_if(cur: &mut SourceCursor, song: &mut Song) -> Token {
         read_error_cmd(cur, song, "IF");
         return Token::new_empty("ERROR:IF", cur.line);
     }
+    let cond_lineno = cur.line;
     let cond = cur.get_token_nest('(', ')');
-    let cond_tok = lex_calc(song, &cond, cur.line);
+    let cond_tok = lex_calc(song, &cond, cond_lineno);
     cur.skip_space();
     if !cur.eq_char('{') {
         read_error_cmd(cur, song, "IF");
         return Token::new_empty("ERROR:IF", cur.line);
     }
     // read then block
+    let then_lineno = cur.line; // the block's text starts on this line
     let then_s = cur.get_token_nest('{', '}');
-    let then_tok = lex(song, &then_s, cur.line);
+    let then_tok = lex(song, &then_s, then_lineno);
     let mut else_tok = vec![];
     cur.skip_space_ret();
     // read else block
@@ -1403,8 +1405,9 @@ fn read_sysex(cur: &mut SourceCursor, _song: &mut Song) -> Token {
 
 fn read_command_sub(cur: &mut SourceCursor, song: &mut Song) -> Token {
     cur.skip_space();
+    let line_start = cur.line; // the block's text starts on this line
     let block = cur.get_token_nest('{', '}');
-    let tokens = lex(song, &block, cur.line);
+    let tokens = lex(song, &block, line_start);
     let mut tok = Token::new(TokenType::Sub, 0, vec![]);
     tok.children = Some(tokens);
     tok
@@ -1421,9 +1424,10 @@ fn read_command_div(cur: &mut SourceCursor, song: &mut Song, need2back: bool) ->
     } else {
         cur.skip_space();
     }
+    let line_start = cur.line; // the block's text starts on this line
     let block = cur.get_token_nest('{', '}');
     let len_s = cur.get_note_length();
-    let tokens = lex(song, &block, cur.line);
+    let tokens = lex(song, &block, line_start);
     // count note (an element inside a loop counts once per repetition of the loop)
     let mut cnt = 0;
     let mut mult: isize = 1; // how often the current position is played
@@ -1498,7 +1502,7 @@ fn read_command_rhythm(cur: &mut SourceCursor, song: &mut Song) -> Token {
         }
     }
     let mut t = Token::new_value(TokenType::Tokens, 0);
-    t.children = Some(lex(song, &result, cur.line));
+    t.children = Some(lex(song, &result, line_start));
     t
 }
 
